@@ -38,10 +38,10 @@ Section HeapRules.
   Variable fl : bool.
 
   Lemma hwp_insert bs sp (Q : cres N -> spec -> Prop) :
-    (forall i sp', i <> 0 -> hp sp i = None -> heq (hp sp') (hupd (hp sp) i bs) -> sdepth sp' = sdepth sp -> Q (CrOk i) sp') ->
+    (forall i sp', i <> 0 -> i < two64 -> hp sp i = None -> heq (hp sp') (hupd (hp sp) i bs) -> sdepth sp' = sdepth sp -> Q (CrOk i) sp') ->
     cwp fl (cp_insert bs) sp Q.
   Proof.
-    intros HQ. apply cwp_insert. intros i sp' Hi Hn Hm Hd. apply HQ; auto.
+    intros HQ. apply cwp_insert. intros i sp' Hi Hlt Hn Hm Hd. apply HQ; auto.
     intros j. unfold hp, hupd. rewrite Hm. apply m_get_put.
   Qed.
 
